@@ -60,7 +60,48 @@ def walk(lines, obs):
             i += 1
 
 
+def validator_expectations(lines, obs):
+    """stocks / lifetime models reject arrays or models whose dimensions differ from their own or
+    whose time dimension is not first"""
+    dims, dsets, arrd = {}, {}, {}
+    for ln, ob in zip(lines, obs):
+        t = ln.split(" ")
+        if t[0] == "dim":
+            dims[t[1]] = t[2]
+        elif t[0] == "dset" and ob.startswith("ok"):
+            dsets[t[1]] = [dims[x] for x in t[2:]]
+        elif t[0] in ("full", "arr") and ob.startswith("ok") and t[2] in dsets:
+            arrd[t[1]] = dsets[t[2]]
+        elif t[0] == "mkstock" and t[1] in dsets:
+            own = dsets[t[1]]
+            ok = bool(own) and own[0].split(":")[1] == t[2]
+            for r in t[3:]:
+                other = arrd.get(r[2:]) if r.startswith("a:") else dsets.get(r[2:])
+                if other is None:
+                    ok = None
+                    break
+                if other != own:
+                    ok = False
+            if ok is None:
+                continue
+            if ok and ob != "ok":
+                return fail(ln, "a stock over matching dimensions (time first) is accepted", "ok", ob)
+            if not ok and ob != "err":
+                return fail(ln, "stocks reject arrays or models whose dimensions differ from their own or whose time dimension is not first", "err", ob)
+        elif t[0] == "mklt" and t[1] in dsets:
+            own = dsets[t[1]]
+            ok = bool(own) and own[0].split(":")[1] == t[2] and t[3] in ("start", "middle", "end")
+            if ok and ob != "ok":
+                return fail(ln, "a lifetime model over dimensions with time first is accepted", "ok", ob)
+            if not ok and ob != "err":
+                return fail(ln, "lifetime models reject dimension sets whose time dimension is not first", "err", ob)
+    return None
+
+
 def check_C13(lines, obs):
+    v = validator_expectations(lines, obs)
+    if v:
+        return v
     for ln, ob, before, after in walk(lines, obs):
         op = ln.split(" ")[0]
         if op == "probe_dims":
